@@ -7,6 +7,7 @@ use std::marker::PhantomData;
 use std::sync::Arc;
 
 use p2panda_auth::Access;
+use p2panda_auth::group::GroupAction;
 use p2panda_auth::traits::{Conditions, Operation};
 use p2panda_core::traits::{Digest, Provenance};
 use p2panda_core::{Hash, SigningKey, VerifyingKey};
@@ -246,7 +247,12 @@ where
 
                 (None, None, vec![event])
             }
-            SpacesArgs::Auth { .. } => {
+            SpacesArgs::Auth { group_action, .. } => {
+                // Changing the access level of a member is not supported yet.
+                if !is_supported_action(group_action) {
+                    return Err(ManagerError::UnsupportedMessage(message.hash()));
+                }
+
                 let event = Group::process(self.clone(), &SpacesMessage::auth(message))
                     .await
                     .map_err(ManagerError::Group)?;
@@ -505,7 +511,14 @@ where
             };
 
             match message.borrow() {
-                SpacesArgs::Auth { .. } => SpacesMessage::auth(&message),
+                SpacesArgs::Auth { group_action, .. } => {
+                    // Changing the access level of a member is not supported yet.
+                    if !is_supported_action(group_action) {
+                        return Err(ManagerError::UnsupportedMessage(auth_message_id));
+                    }
+
+                    SpacesMessage::auth(&message)
+                }
                 _ => {
                     return Err(ManagerError::IncorrectMessageVariant(auth_message_id));
                 }
@@ -676,6 +689,14 @@ where
 
         Ok(messages)
     }
+}
+
+/// Returns `false` for group actions p2panda-spaces can not process yet ("promote" and "demote").
+fn is_supported_action<C>(action: &GroupAction<ActorId, C>) -> bool {
+    !matches!(
+        action,
+        GroupAction::Promote { .. } | GroupAction::Demote { .. }
+    )
 }
 
 // Deriving clone on Manager will enforce generics to also impl Clone even though we are wrapping
